@@ -67,14 +67,16 @@ struct Chain {
     /// independent verification verdicts, by descriptor
     valid: HashMap<Desc, bool>,
     other_genesis: validator::GenesisHash,
+    /// `genesis.first_block` of this chain
+    g: u64,
 }
 
 impl Chain {
-    fn new(seed: u64) -> Self {
-        let rng = &mut StdRng::seed_from_u64(seed ^ 0xC08);
+    fn new(seed: u64, g: u64) -> Self {
+        let rng = &mut StdRng::seed_from_u64(seed ^ 0xC08 ^ (g << 32));
         let mut spec = SetupSpec::new(rng, NVALS);
-        spec.first_block = BlockNumber(GFIRST);
-        spec.first_pregenesis_block = BlockNumber(GFIRST); // pre-genesis blocks are built on demand
+        spec.first_block = BlockNumber(g);
+        spec.first_pregenesis_block = BlockNumber(g); // pre-genesis blocks are built on demand
         let setup = Setup::from_spec(rng, spec);
         let schedule = setup.validators_schedule().clone();
         let mut keys: Vec<Option<validator::SecretKey>> = vec![None; NVALS];
@@ -84,6 +86,7 @@ impl Chain {
         Self {
             keys: keys.into_iter().map(|k| k.unwrap()).collect(),
             other_genesis: rng.gen(),
+            g,
             setup,
             built: HashMap::new(),
             by_num: HashMap::new(),
@@ -155,8 +158,8 @@ impl Chain {
         b
     }
 
-    fn canonical_desc(n: u64, c: u64) -> Desc {
-        if n < GFIRST {
+    fn canonical_desc(&self, n: u64, c: u64) -> Desc {
+        if n < self.g {
             Desc { pre: true, n, c, e: 0, g: true, p: true, sl: 0, s: vec![], sg: true, j: true }
         } else {
             Desc { pre: false, n, c, e: 0, g: true, p: true, sl: NVALS, s: (0..NVALS).collect(), sg: true, j: true }
@@ -164,7 +167,8 @@ impl Chain {
     }
 
     fn canonical(&mut self, n: u64) -> Block {
-        self.build(&Self::canonical_desc(n, 0))
+        let d = self.canonical_desc(n, 0);
+        self.build(&d)
     }
 
     fn describe(&self, b: &Block) -> Option<Desc> {
@@ -180,7 +184,7 @@ impl Chain {
             }
         }
         let v = match b {
-            Block::PreGenesis(p) => p.number < BlockNumber(GFIRST) && p.justification.0.first() == Some(&1),
+            Block::PreGenesis(p) => p.number < BlockNumber(self.g) && p.justification.0.first() == Some(&1),
             Block::FinalV2(f) => {
                 f.epoch() == validator::EpochNumber(0)
                     && f.verify(self.setup.genesis_hash(), validator::EpochNumber(0), self.setup.validators_schedule()).is_ok()
@@ -450,6 +454,9 @@ pub struct C08 {
     /// multi-threaded runtime of the `mt` cases
     mt_rt: tokio::runtime::Runtime,
     chain: Chain,
+    /// the chains of the other `genesis.first_block` values used so far (an op with a `gfirst` field selects one)
+    chains: HashMap<u64, Chain>,
+    seed: u64,
     world: Option<World>,
     capacity: u64,
     case_ops: Vec<Value>,
@@ -480,7 +487,9 @@ impl C08 {
         Self {
             rt: tokio::runtime::Builder::new_current_thread().enable_all().build().unwrap(),
             mt_rt: tokio::runtime::Builder::new_multi_thread().worker_threads(4).enable_all().build().unwrap(),
-            chain: Chain::new(seed),
+            chain: Chain::new(seed, GFIRST),
+            chains: HashMap::new(),
+            seed,
             world: None,
             capacity: read_capacity(),
             case_ops: vec![],
@@ -593,12 +602,12 @@ impl C08 {
         node.req_blocks.retain(|id, _| live.contains(id));
     }
 
-    fn parse_desc(n: u64, b: &Value) -> Desc {
+    fn parse_desc(g: u64, n: u64, b: &Value) -> Desc {
         let k = b["k"].as_str().unwrap_or("a");
         let pre = match k {
             "p" => true,
             "f" => false,
-            _ => n < GFIRST,
+            _ => n < g,
         };
         let c = b["c"].as_u64().unwrap_or(0);
         if pre {
@@ -870,7 +879,7 @@ impl C08 {
         let mut wants: Vec<(u64, Block)> = vec![];
         for a in op["answers"].as_array().unwrap() {
             let want = a["want"].as_u64().unwrap();
-            let d = Self::parse_desc(a["n"].as_u64().unwrap(), &a["b"]);
+            let d = Self::parse_desc(self.chain.g, a["n"].as_u64().unwrap(), &a["b"]);
             let b = self.chain.build(&d);
             answers.insert(want, b.clone());
             wants.push((want, b));
@@ -1003,7 +1012,7 @@ impl C08 {
         let mut subs: Vec<(u64, String, i128, Block)> = vec![];
         for a in op["subs"].as_array().unwrap() {
             let n = a["n"].as_u64().unwrap();
-            let d = Self::parse_desc(n, &a["b"]);
+            let d = Self::parse_desc(self.chain.g, n, &a["b"]);
             let b = self.chain.build(&d);
             subs.push((a["id"].as_u64().unwrap(), a["src"].as_str().unwrap_or("api").to_string(), n as i128 + a["dwant"].as_i64().unwrap_or(0) as i128, b));
         }
@@ -1117,7 +1126,20 @@ impl C08 {
         obs
     }
 
+    fn select_chain(&mut self, g: u64) {
+        if self.chain.g != g {
+            let seed = self.seed;
+            let new = self.chains.remove(&g).unwrap_or_else(|| Chain::new(seed, g));
+            let old = std::mem::replace(&mut self.chain, new);
+            self.chains.insert(old.g, old);
+        }
+    }
+
     fn exec_inner(&mut self, op: &Value, out: &mut Out) -> Value {
+        if let Some(g) = op.get("gfirst").and_then(|g| g.as_u64()) {
+            self.select_chain(g);
+            out.count(&format!("gfirst={g}"));
+        }
         let name = op["op"].as_str().unwrap_or("");
         out.count(&format!("op={name}"));
         let mut extra = serde_json::Map::new();
@@ -1171,7 +1193,7 @@ impl C08 {
                         extra.insert("skip".into(), json!(true));
                     }
                     Some(n) => {
-                        let d = Self::parse_desc(n, &op["b"]);
+                        let d = Self::parse_desc(self.chain.g, n, &op["b"]);
                         let block = self.chain.build(&d);
                         let id = op["id"].as_u64().unwrap();
                         let src = op["src"].as_str().unwrap_or("api").to_string();
@@ -1379,6 +1401,8 @@ struct Gen {
     rng: StdRng,
     ops: Vec<Value>,
     next_id: u64,
+    /// `genesis.first_block` of the cases generated next
+    gfirst: u64,
 }
 
 fn valid_b(c: u64) -> Value {
@@ -1396,7 +1420,7 @@ impl Gen {
         self.next_id
     }
     fn init(&mut self, first: u64, last: Option<u64>, credits: u64, racy: bool) {
-        self.ops.push(json!({"op":"init","reset":true,"gfirst":GFIRST,"weights":vec![1u64; NVALS],"first":first,"last":last,"credits":credits,"racy":racy}));
+        self.ops.push(json!({"op":"init","reset":true,"gfirst":self.gfirst,"weights":vec![1u64; NVALS],"first":first,"last":last,"credits":credits,"racy":racy}));
     }
     fn submit(&mut self, src: &str, rel: i64, b: Value) -> u64 {
         let id = self.id();
@@ -1449,15 +1473,15 @@ impl Gen {
     fn start(&mut self, racy: bool) {
         let (first, last) = match self.rng.gen_range(0..8) {
             0 => (0, None),
-            1 => (GFIRST - 1, None),
-            2 => (GFIRST, None),
+            1 => (self.gfirst.saturating_sub(1), None),
+            2 => (self.gfirst, None),
             3 => (self.rng.gen_range(0..40), None),
             4 => (0, Some(self.rng.gen_range(0..12))),
             5 => {
                 let f = self.rng.gen_range(0..30);
                 (f, Some(f + self.rng.gen_range(0..20)))
             }
-            6 => (GFIRST, Some(GFIRST + self.rng.gen_range(0..5))),
+            6 => (self.gfirst, Some(self.gfirst + self.rng.gen_range(0..5))),
             _ => (self.rng.gen_range(0..6), None),
         };
         let credits = *[0u64, 0, 1, 3, 1000].choose(&mut self.rng).unwrap();
@@ -1543,7 +1567,7 @@ impl Gen {
     fn fam_pregenesis(&mut self) {
         self.init(0, None, 1000, false);
         // forced kinds around genesis.first_block
-        for n in 0..GFIRST + 2 {
+        for n in 0..self.gfirst + 2 {
             let k = *["a", "p", "f"].choose(&mut self.rng).unwrap();
             let j = self.rng.gen_bool(0.8);
             let b = with(with(valid_b(0), "k", json!(k)), "j", json!(j));
@@ -1736,20 +1760,20 @@ impl Gen {
     }
     fn fam_net(&mut self, variant: u64) {
         // the peer path through the real gossip network (see `exec_net`)
-        let f = GFIRST + self.rng.gen_range(0..20);
+        let f = self.gfirst + self.rng.gen_range(0..20);
         let ws = vec![1u64; NVALS];
         let v = match variant % 4 {
             // the peer never answers `f` and answers `f+1` with the (valid, appendable) block `f`
-            0 => json!({"op":"net","reset":true,"gfirst":GFIRST,"weights":ws,"first":f,"have":[f, f + 1],
+            0 => json!({"op":"net","reset":true,"gfirst":self.gfirst,"weights":ws,"first":f,"have":[f, f + 1],
                         "answers":[{"want":f + 1,"n":f,"b":valid_b(0)}]}),
             // a block with the right number and a bad certificate
-            1 => json!({"op":"net","reset":true,"gfirst":GFIRST,"weights":ws,"first":f,"have":[f, f],
+            1 => json!({"op":"net","reset":true,"gfirst":self.gfirst,"weights":ws,"first":f,"have":[f, f],
                         "answers":[{"want":f,"n":f,"b":with(valid_b(0), "sg", json!(false))}]}),
             // honest peer
-            2 => json!({"op":"net","reset":true,"gfirst":GFIRST,"weights":ws,"first":f,"have":[f, f + 1],
+            2 => json!({"op":"net","reset":true,"gfirst":self.gfirst,"weights":ws,"first":f,"have":[f, f + 1],
                         "answers":[{"want":f,"n":f,"b":valid_b(0)},{"want":f + 1,"n":f + 1,"b":valid_b(0)}]}),
             // low-weight certificate with the right number
-            _ => json!({"op":"net","reset":true,"gfirst":GFIRST,"weights":ws,"first":f,"have":[f, f],
+            _ => json!({"op":"net","reset":true,"gfirst":self.gfirst,"weights":ws,"first":f,"have":[f, f],
                         "answers":[{"want":f,"n":f,"b":with(valid_b(0), "s", json!([0, 1, 2, 3]))}]}),
         };
         self.op(v);
@@ -1789,7 +1813,7 @@ impl Gen {
             1 => json!(next + self.rng.gen_range(0..width)),
             _ => gap.map(|g| json!(g + self.rng.gen_range(0..3))).unwrap_or(Value::Null),
         };
-        self.op(json!({"op":"mt","reset":true,"gfirst":GFIRST,"weights":vec![1u64; NVALS],"first":first,"last":last,"subs":subs,"jump":jump}));
+        self.op(json!({"op":"mt","reset":true,"gfirst":self.gfirst,"weights":vec![1u64; NVALS],"first":first,"last":last,"subs":subs,"jump":jump}));
     }
     fn fam_racy(&mut self) {
         // conflicting valid blocks parked for the same number: whichever wins, the structure is the same
@@ -1859,10 +1883,14 @@ impl Gen {
 
 impl Prop for C08 {
     fn gen(&mut self, opts: &Opts) -> Vec<Value> {
-        let mut g = Gen { rng: opts.rng(), ops: vec![], next_id: 0 };
+        let mut g = Gen { rng: opts.rng(), ops: vec![], next_id: 0, gfirst: GFIRST };
         let cap = self.capacity;
         // every directed family once, then a weighted mix until the budget is used
-        g.fam_pregenesis();
+        for gf in [GFIRST, 0, 1] {
+            g.gfirst = gf;
+            g.fam_pregenesis();
+        }
+        g.gfirst = GFIRST;
         for v in 0..4 {
             g.fam_net(v);
         }
@@ -1873,6 +1901,8 @@ impl Prop for C08 {
         g.fam_lag_capacity(cap);
         let mut round = 0u64;
         while g.ops.len() < opts.n {
+            // genesis.first_block of the case: mostly 3, also the boundary values 0 (no pre-genesis block at all) and 1
+            g.gfirst = *[GFIRST, GFIRST, GFIRST, 0, 1, GFIRST, 0, 7].choose(&mut g.rng).unwrap();
             match round % 16 {
                 0 => g.fam_in_order(),
                 1 => g.fam_out_of_order(),
